@@ -102,6 +102,9 @@ Definition sstep (s : strm) (e : sev) : option strm :=
       | _ => None end
   | CcClose => match sink s with
       | SOpen =>
+          (* closeChans takes the handler's mutex: it cannot run while a value is inside the sink callback (a value whose
+             callback returned without accepting it belongs to a cancelled subscription) *)
+          if inval s && negb (ctxc s) then None else
           Some {| tried := tried s; sent := sent s; pclosed := pclosed s; alloc := alloc s; reg := reg s; fwd := fwd s;
                   fclosed := fclosed s; sink := SClosed; how := ByConn; inval := false; deliv := deliv s; ctxc := ctxc s;
                   cons := cons s; cclosed := cclosed s |}
